@@ -70,19 +70,25 @@ class AbstractDataframeDataReader:
             - If the :s:`pd.Series` is string and contain empty strings
         """
         # TODO? enforce strings? (for compatibility for downstream requirements especially in IndividualParameters)
-        valid_dtypes = ["string", "integer", "categorical"]
+        valid_dtypes = ["string", "integer"]
         inferred_dtype = pd.api.types.infer_dtype(s)
+        column_dtype = s.dtype
+        n_missing = s.isna().sum()  # on the column itself (the categories of a categorical never hold nan)
+        if inferred_dtype == "categorical":
+            # the requirements on identifiers hold on the labels in use behind the categories
+            s = pd.Series(s.cat.remove_unused_categories().cat.categories, name=s.name)
+            inferred_dtype = pd.api.types.infer_dtype(s) if len(s) else "string"
         if inferred_dtype not in valid_dtypes:
             raise LeaspyDataInputError(
-                "The `ID` column should identify individuals as string, integer or categories, "
-                f"not {inferred_dtype} ({s.dtype})."
+                "The `ID` column should identify individuals as string, integer or categories of those, "
+                f"not {inferred_dtype} ({column_dtype})."
             )
 
-        if s.isna().any():
+        if n_missing:
             # NOTE: as soon as a np.nan or np.inf, inferred_dtype cannot be 'integer'
             # but custom pandas dtype can still contain pd.NA
             raise LeaspyDataInputError(
-                f"The `ID` column should NOT contain any nan ({s.isna().sum()} found)."
+                f"The `ID` column should NOT contain any nan ({n_missing} found)."
             )
 
         if inferred_dtype == "integer":
